@@ -184,6 +184,8 @@ def run_check(prop: str, tier: str, seed: int) -> int:
     import logging
     logging.disable(logging.CRITICAL)      # the library logs handled errors with logger.exception
     ctx = Ctx(prop, tier, seed)
+    for f in glob.glob(os.path.join(REPLAYS, f'{prop}-*.json')):
+        os.remove(f)
     mod = importlib.import_module(f'harness.props.{prop.lower()}')
     spec = mod.SPEC
     lines, violations, stages = [], [], []
@@ -197,7 +199,7 @@ def run_check(prop: str, tier: str, seed: int) -> int:
             ctx.gen_error = ' '.join(out.split())[-600:]
         # 2. full .vo build of the property's theorems
         if ctx.coq_ok:
-            rc, out = make([f'Props/{prop}.vo'])
+            rc, out = make([f'Props/{prop}.vo'] + list(spec.get('coq_targets', ['Model/Proto.vo', 'Model/Sensors.vo', 'Model/FailCount.vo', 'Gen/TablesGen.vo', 'Py/CaseLib.vo'])))
             if rc != 0:
                 ctx.coq_ok = False
                 ctx.coq_error = coq_error_summary(out)
